@@ -204,3 +204,32 @@ Theorem C18_read_stl_partial_block_genuine : forall ign data j r,
 Proof. exact read_stl_partial_block_genuine. Qed.
 Print Assumptions C18_read_stl_fault_genuine.
 Print Assumptions C18_read_stl_partial_block_genuine.
+
+(* Teletext in transport streams (second audit, N1): the wrapper teletextFullReader (Model/TtxFull.v, see the block at the
+   end of C17.v for what is and is not modelled).  A stream failing at offset k <= length data, under EVERY schedule and
+   whether the failure comes with the last bytes or alone: the demuxer's Reads return the one-shot sequence of the first k
+   bytes ending in the failure; the Read that would cross offset k returns the bytes up to k together with the failure,
+   the Reads before it are filled and report nothing, nothing beyond offset k is ever delivered and the failure is never
+   turned into end-of-file or nil (in particular not by the ErrUnexpectedEOF -> nil step of the wrapper); a failure the
+   demuxer does not reach changes nothing.  What astits does with the error of its Read is its contract (it returns it:
+   harness suite fault.read.teletext on the implementation). *)
+From Astisub Require Import Model.TtxFull Proofs.TtxFullProofs.
+Theorem C18_ttx_fault_reads : forall data k counts w ns, (k <= length data)%nat ->
+  tf_reads (tf_of data (SFail k) counts w) ns = Some (tf_oneshot (firstn k data) TfFault ns).
+Proof. exact ttx_fault_reads. Qed.
+Print Assumptions C18_ttx_fault_reads.
+Theorem C18_ttx_fault_propagates : forall data k counts w ns, (k <= length data)%nat -> (k < list_sum ns)%nat ->
+  exists pre b post, tf_reads (tf_of data (SFail k) counts w) ns = Some (pre ++ (b, Some TfFault) :: post) /\
+                     Forall (fun x => snd x = None) pre /\ concat (map fst pre) ++ b = firstn k data /\ Forall (fun x => fst x = []) post.
+Proof. exact ttx_fault_propagates. Qed.
+Print Assumptions C18_ttx_fault_propagates.
+Theorem C18_ttx_fault_unreached : forall data k counts w ns, (k <= length data)%nat -> (list_sum ns <= k)%nat ->
+  tf_reads (tf_of data (SFail k) counts w) ns = tf_reads (tf_of data SEof counts w) ns.
+Proof. exact ttx_fault_unreached. Qed.
+Print Assumptions C18_ttx_fault_unreached.
+(* non-vacuity: failure at offset 5 delivered with the last bytes; the second Read of 3 crosses it *)
+Example C18_ttx_fault_example :
+  tf_reads (tf_of [1;2;3;4;5;6;7]%N (SFail 5) [1;0;2]%nat true) [3;3;3]%nat =
+  Some [([1;2;3]%N, None); ([4;5]%N, Some TfFault); ([], Some TfFault)].
+Proof. reflexivity. Qed.
+Print Assumptions C18_ttx_fault_example.
